@@ -294,7 +294,7 @@ func checkGuards(r *Reporter, p *Prog, rule string, rows []GuardRow) {
 					if rt == nil || rt.Obj().Pkg() == nil {
 						return
 					}
-					chCore(x, rt.Obj().Name(), rt.Obj().Pkg().Path(), fn.Name(), se.X, embeddedChain(sel, len(sel.Index())-1), stack, held)
+					chCore(x, rt.Obj().Name(), rt.Obj().Pkg().Path(), funcName(fn), se.X, embeddedChain(sel, len(sel.Index())-1), stack, held)
 				}
 				// a call of a package-level function with a receiver-role parameter: a call of that
 				// "method" on the argument
@@ -331,7 +331,7 @@ func checkGuards(r *Reporter, p *Prog, rule string, rows []GuardRow) {
 					if u, isAddr := arg.(*ast.UnaryExpr); isAddr && u.Op == token.AND {
 						arg = ast.Unparen(u.X)
 					}
-					chCore(x, pt, fn.Pkg().Path(), fn.Name(), arg, "", stack, held)
+					chCore(x, pt, fn.Pkg().Path(), funcName(fn), arg, "", stack, held)
 				}
 				chCore = func(x ast.Node, rtName, rtPkgPath, fnName string, recvX ast.Expr, embChain string, stack []ast.Node, held LockSet) {
 					if !seen[x] {
@@ -670,7 +670,7 @@ func checkGuards(r *Reporter, p *Prog, rule string, rows []GuardRow) {
 							}
 							if fn, _ := sel.Obj().(*types.Func); fn != nil && !isCallee {
 								if rt := namedOfRecv(fn.Origin()); rt != nil {
-									escapes[rt.Obj().Name()+"."+fn.Name()] = "used as a method value at " + p.posStr(x.Pos())
+									escapes[rt.Obj().Name()+"."+funcName(fn)] = "used as a method value at " + p.posStr(x.Pos())
 								}
 							}
 							return
@@ -731,7 +731,7 @@ func checkGuards(r *Reporter, p *Prog, rule string, rows []GuardRow) {
 										break
 									}
 									if !isCallee {
-										escapes[pt+"."+fn.Name()] = "used as a function value at " + p.posStr(x.Pos())
+										escapes[pt+"."+funcName(fn)] = "used as a function value at " + p.posStr(x.Pos())
 									}
 								}
 							}
@@ -925,16 +925,16 @@ func calleeName(info *types.Info, call *ast.CallExpr) string {
 			if rt.Obj().Pkg() != nil {
 				pp = rt.Obj().Pkg().Path()
 			}
-			return pp + "." + rt.Obj().Name() + "." + fn.Name()
+			return pp + "." + rt.Obj().Name() + "." + funcName(fn)
 		}
 		if sig, ok := fn.Type().(*types.Signature); ok && sig.Recv() != nil {
 			// interface method
-			return "iface." + fn.Name()
+			return "iface." + funcName(fn)
 		}
 		if fn.Pkg() != nil {
-			return fn.Pkg().Path() + "." + fn.Name()
+			return fn.Pkg().Path() + "." + funcName(fn)
 		}
-		return fn.Name()
+		return funcName(fn)
 	}
 	return "." + id.Name
 }
